@@ -8,6 +8,7 @@ import Gts.Lemmas.CanonKeys
 import Gts.Lemmas.CanonRead
 import Gts.Lemmas.ParseInv
 import Gts.Lemmas.ParseSim
+import Gts.Lemmas.ParseK3Guard
 import Gts.Lemmas.ParseGuardEx
 namespace Gts.C06
 open Gts Loc Pars
@@ -285,6 +286,16 @@ model's `AsLocation` is the flagged copy `parseLocationG g` (Gts/Spec/ParseGuard
 same acceptance, same error (failure or panic), same location, same unconsumed rest. -/
 theorem parse_flag_ghost (g : List Loc → Bool) (s : Pars.Bytes) :
     parseLocation s = (parseLocationG g s).map (fun x => (x.1, x.2.2)) := parseLocation_eq_G g s
+
+/-- **The flagged parser behind the op `k3.parse` is the generic one**: `parseLocationK3` (Spec/ParseK3.lean — answered by
+the Lean driver AND restated in Go on the real parser, harness/props_c06_parsek3.go, compared on every line sent) is
+`parseLocationG` at the guard `Loc.joinK3`; with `parse_flag_ghost` its location and rest are the model parser's. -/
+theorem parse_k3_is_guard_instance (s : Pars.Bytes) :
+    parseLocationK3 s = parseLocationG Loc.joinK3 s ∧
+    parseLocation s = (parseLocationK3 s).map (fun x => (x.1, x.2.2)) := by
+  refine ⟨parseLocationK3_eq_G s, ?_⟩
+  rw [parseLocationK3_eq_G s]
+  exact parse_flag_ghost Loc.joinK3 s
 
 /-- **Parser results are structurally canonical**: for every byte string `s`, if the model parser accepts `s`
 with result `l` and the evaluation-level guard of `s` is false (no `Join` the parser evaluated met the K3 shape or
